@@ -150,23 +150,54 @@ theorem replsets_exact (d : PDesc) (insts : Ring.Desc) (hs : List Bool) (t now :
       ¬ ∃ o ∈ d.owners, o.partition = pid ∧ ∃ i, insts.get? o.id = some i ∧ isHealthy hs t now i = true) :=
   replSetFor_exact d insts hs t now pid
 
-/-- PARTIAL for the multi-partition variant (`GetReplicationSetForPartitionAndOperation`): every member of
-the returned set is a healthy registered owner of the partition (owner id without its `/partition`
-suffix), and "empty ring" is returned exactly when the partition has no registered owner. -/
-theorem multi_replset_members_partial (d : PDesc) (insts : Ring.Desc) (hs : List Bool) (t now : Int) (pid : Int) :
-    (∀ ids mu, multiReplSet d insts hs t now pid = .ok (ids, mu) →
-      ∀ x ∈ ids, ∃ o ∈ d.owners, o.partition = pid ∧ ∃ i, insts.get? (stripSuffix o.id) = some i ∧
-        isHealthy hs t now i = true ∧ i.id = x) ∧
-    (multiReplSet d insts hs t now pid = .error .emptyRing ↔ ¬ ∃ o ∈ d.owners, o.partition = pid) :=
-  multiReplSet_members d insts hs t now pid
+/-- **all partitions** (`GetReplicationSetsForOperation`): one set per partition (any state), each the set of
+`replsets_exact`; "empty ring" exactly when there is no partition, "too many unhealthy instances" exactly
+when some partition has no healthy registered owner. (`Forall2` = pointwise on two lists of equal length.) -/
+theorem replsets_all (d : PDesc) (insts : Ring.Desc) (hs : List Bool) (t now : Int) :
+    (∀ sets, replSets d insts hs t now = .ok sets ↔
+      d.parts ≠ [] ∧ Forall2 (fun p s => replSetFor d insts hs t now p.id = .ok s) d.parts sets) ∧
+    (replSets d insts hs t now = .error .emptyRing ↔ d.parts = []) ∧
+    (replSets d insts hs t now = .error .tooManyUnhealthy ↔
+      d.parts ≠ [] ∧ ∃ p ∈ d.parts, replSetFor d insts hs t now p.id = .error .tooManyUnhealthy) :=
+  replSets_all d insts hs t now
 
-/-
-Not proved (kept as statements):
-  multi_replset_exact : multiReplSet … = .ok (ids, mu) → ids has exactly one member per zone of the healthy
-      registered owners, a non-read-only one if the zone has one, with the highest numeric suffix among those;
-      `tooManyUnhealthy` ⇔ owners are registered but none is healthy (all checked by the judge on every case).
-  replsets_all : replSets … = .ok sets ⇔ every partition's `replSetFor` succeeds, `sets` being their list
-      (`replSets` is `mapM replSetFor` over the partitions; `emptyRing` ⇔ no partitions).
--/
+/-- the healthy registered owners the multi-partition variant chooses from: `(instance id, instance)` for
+every registered owner of the partition (owner id without its `/partition` suffix) that exists in the
+instance ring and is healthy for the operation. -/
+theorem multi_healthy_owners (d : PDesc) (insts : Ring.Desc) (hs : List Bool) (t now : Int) (pid : Int)
+    (c : String × Ring.Inst) :
+    c ∈ multiFound d insts hs t now pid ↔
+      ∃ o ∈ d.owners, o.partition = pid ∧ c.1 = stripSuffix o.id ∧ insts.get? c.1 = some c.2 ∧
+        isHealthy hs t now c.2 = true :=
+  mem_multiFound d insts hs t now pid c
+
+/-- **multi-partition variant** (`GetReplicationSetForPartitionAndOperation`): on success the set has
+exactly one member per zone of the healthy registered owners (in first-appearance order of the zones);
+each member is a healthy registered owner in that zone, is non-read-only whenever its zone has a
+non-read-only healthy owner, and no healthy owner of its zone and read-only class has a higher numeric id
+suffix; `MaxUnavailableZones = #zones - 1`. -/
+theorem multi_replset_exact (d : PDesc) (insts : Ring.Desc) (hs : List Bool) (t now : Int) (pid : Int)
+    (ids : List String) (mu : Nat) (h : multiReplSet d insts hs t now pid = .ok (ids, mu)) :
+    let found := multiFound d insts hs t now pid
+    let zones := uniqueZones (found.map (·.2))
+    mu = zones.length - 1 ∧
+    ∃ picks : List (String × Ring.Inst), ids = picks.map (·.2.id) ∧
+      Forall2 (fun z c => c ∈ found ∧ c.2.zone = z ∧
+        (∀ x ∈ found, x.2.zone = z → c.2.ro = true → x.2.ro = true) ∧
+        (∀ x ∈ found, x.2.zone = z → x.2.ro = c.2.ro → idxLt (indexFromSuffix c.1) (indexFromSuffix x.1) = false))
+        zones picks :=
+  multiReplSet_exact d insts hs t now pid ids mu h
+
+/-- … and it requires at least one: "empty ring" exactly when the partition has no registered owner, "too
+many unhealthy instances" exactly when owners are registered but none is healthy. -/
+theorem multi_replset_errors (d : PDesc) (insts : Ring.Desc) (hs : List Bool) (t now : Int) (pid : Int) :
+    (multiReplSet d insts hs t now pid = .error .emptyRing ↔ ¬ ∃ o ∈ d.owners, o.partition = pid) ∧
+    (multiReplSet d insts hs t now pid = .error .tooManyUnhealthy ↔
+      (∃ o ∈ d.owners, o.partition = pid) ∧ multiFound d insts hs t now pid = []) :=
+  multiReplSet_errors d insts hs t now pid
+
+/-- non-vacuity of the per-zone pick: the non-read-only owner wins over a read-only one. -/
+example : pickHighest "a" [("x", { id := "x", zone := "a", ro := true }), ("y", { id := "y", zone := "a" }),
+    ("z", { id := "z", zone := "b" })] = some ("y", { id := "y", zone := "a" }) := by decide
 
 end PC15
